@@ -236,3 +236,5 @@ def run(ck):
     from props import C09
 
     common.import_results(ck, C09, "2", "dispatch_events", "5")
+    # .. and a request parked by another source never reaches a ping source (C09.1 / C09.4)
+    common.dispatch_infra(ck, "5")
